@@ -6,8 +6,17 @@ import numpy as np
 import translate_hc
 from common import LEAN, REPO, R, Ro, Cxo, fl
 
-LEAN_MODULES = ["PyomaVerif.Props.C09", "PyomaVerif.Mutants.C09", "PyomaVerif.Props.C09C18"]
+LEAN_MODULES = ["PyomaVerif.Props.C09", "PyomaVerif.Mutants.C09", "PyomaVerif.Props.C09C18", "PyomaVerif.Props.C09All"]
 THEOREMS = [
+    # C09 for all six classes as ONE theorem over the list (program, required fields, which flags exist)
+    "PV.C09All.C09_seq_all",
+    "PV.C09All.required_pole_fields",
+    "PV.C09All.C09_kept_iff_all",
+    "PV.C09All.C09_kept_iff_field",
+    "PV.C09All.C09_nan_pattern",
+    "PV.C09All.C09_common_mask",
+    "PV.C09All.kept_iff_keptB",
+    "PV.C09All.ex_kept",
     # composition C09 o C18: the kept poles satisfy the criteria for the library's own MPC/MPD definitions
     "PV.C09C18.kept_iff_of_check",
     "PV.C09C18.C09_kept_mpc",
